@@ -19,9 +19,62 @@ pub struct Case {
     #[serde(default)]
     pub full_window: bool,
     pub ops: Vec<Op>,
+    /// wire group: a holder-commitment history (the generator of C01/C02) sent through the
+    /// protocol handlers at this protocol version; every refused message is compared
+    #[serde(default)]
+    pub wire: Option<WireCase>,
+}
+
+#[derive(Clone, Debug, Serialize, Deserialize)]
+pub struct WireCase {
+    pub version: u8,
+    pub outbound: bool,
+    pub ops: Vec<crate::props::holder::Op>,
 }
 
 pub struct C10;
+
+impl C10 {
+    /// Wire group: the signer is built and driven like vlsd drives it (protocol handlers,
+    /// messages serialised and parsed back); a refused message must leave the node, the channels,
+    /// the tracker and the store as they were.
+    fn run_wire(&self, case: &Case, wc: &WireCase, st: &mut CaseStats, ctx: &Ctx) -> Result<(), Violation> {
+        let mut m = crate::props::proto::setup_proto(case.anchors, wc.outbound, wc.version as u32);
+        m.watch_refusals = true;
+        st.class(format!("wire:v{}", wc.version));
+        let mut trace = vec![];
+        for (i, op) in wc.ops.iter().enumerate() {
+            if m.dead {
+                st.class("history_truncated_after_abort");
+                break;
+            }
+            if matches!(op, crate::props::holder::Op::StorageFault) {
+                continue;
+            }
+            let watched = m.refusals_watched;
+            let next = m.next_num().min(3);
+            let so = crate::props::holder::HistoryMachine::step(&mut m, i, op);
+            st.class(format!("wire:{}:{}", so.kind, so.tag));
+            if trace.len() < 40 {
+                trace.push(json!({"i": i, "op": op, "kind": so.kind, "result": so.tag, "err": so.err}));
+            }
+            if let Some((name, err, diffs)) = m.refusal_diffs.first() {
+                ctx.report(st, Violation::new(
+                    format!("C10:wire:refused-message-mutated-state:{}:{}", name, strip_ids(&diffs[0])),
+                    format!("step {} {:?} (protocol v{}): {} refused with '{}' but state changed: {:?}", i, op, wc.version, name, err, diffs),
+                ))?;
+                st.class("history_truncated_after_known_finding");
+                break;
+            }
+            if m.refusals_watched > watched && next > 0 {
+                st.class("wire:refused_message_compared");
+                st.nontrivial_shape(("wire", so.kind, so.err.chars().take(48).collect::<String>(), next, wc.version));
+            }
+        }
+        st.sample = Some(json!({"wire": wc.version, "anchors": case.anchors, "outbound": wc.outbound, "trace": trace}));
+        Ok(())
+    }
+}
 
 fn strip_ids(p: &str) -> String {
     // drop hex ids and numbers so that signatures stay stable
@@ -63,9 +116,15 @@ impl Prop for C10 {
     }
     fn strategy(&self, tier: Tier) -> BoxedStrategy<Case> {
         let n = tier.pick(40usize, 100usize);
-        (prop::bool::weighted(0.4), any::<bool>(), prop::bool::weighted(0.4), proptest::collection::vec(op_strat(true), 1..n)).prop_map(|(cloud, anchors, full_window, ops)| Case { cloud, anchors, full_window, ops }).boxed()
+        let api = (prop::bool::weighted(0.4), any::<bool>(), prop::bool::weighted(0.4), proptest::collection::vec(op_strat(true), 1..n)).prop_map(|(cloud, anchors, full_window, ops)| Case { cloud, anchors, full_window, ops, wire: None });
+        let wire = (4u8..7, any::<bool>(), any::<bool>(), proptest::collection::vec(crate::props::holder::op_strat(2, 2), 1..n))
+            .prop_map(|(version, anchors, outbound, ops)| Case { cloud: false, anchors, full_window: false, ops: vec![], wire: Some(WireCase { version, outbound, ops }) });
+        prop_oneof![4 => api, 1 => wire].boxed()
     }
     fn run(&self, case: &Case, st: &mut CaseStats, ctx: &Ctx) -> Result<(), Violation> {
+        if let Some(wc) = &case.wire {
+            return self.run_wire(case, wc, st, ctx);
+        }
         let mut m = Machine::new(case.cloud, case.anchors);
         if case.full_window {
             m.fill_header_window();
